@@ -14,7 +14,8 @@ CONSTANT MaxSteps
 
 VARIABLES
   dirKind,   \* "temp": launch() made the data directory; "user": the caller supplied it (data_directory=);
-             \* "cfg": the caller's directory is named by the configuration object handed to launch()
+             \* "cfg": the caller's directory is named by the configuration object handed to launch();
+             \* "usernew": the caller names (data_directory=) a directory that does not exist yet - launch() creates it
   dirExists,
   attempted, \* a control connection attempt is under way / succeeded
   conn,      \* "none" | "pending" | "up" | "failed"
@@ -35,7 +36,7 @@ VARIABLES
 vars == <<dirKind, dirExists, attempted, conn, stage, subscribed, owned, saw100, res, launch, nlaunch, tmo, terms, exited, wrote, shut, steps>>
 
 Init ==
-  /\ dirKind \in {"temp", "user", "cfg"} /\ dirExists = TRUE
+  /\ dirKind \in {"temp", "user", "cfg", "usernew"} /\ dirExists = TRUE
   /\ attempted = FALSE /\ conn = "none" /\ stage = "none" /\ subscribed = FALSE /\ owned = FALSE /\ saw100 = FALSE
   /\ res = "p" /\ launch = "p" /\ nlaunch = 0 /\ tmo = "armed" /\ terms = 0 /\ exited = FALSE /\ wrote = <<>> /\ shut = FALSE /\ steps = 0
 
@@ -130,7 +131,7 @@ SuccessOnlyAfterBootstrap == launch = "ok" => saw100 /\ subscribed /\ owned    \
 FailsIfEndedOrTimedOutFirst == ((exited \/ tmo = "fired") /\ res # "ok") => launch = "err"
 TermOnTimeout == tmo = "fired" => (terms >= 1 \/ exited)
 TempDirRemoved == ((exited \/ shut) /\ dirKind = "temp") => ~dirExists
-UserDirKept == dirKind \in {"user", "cfg"} => dirExists
+UserDirKept == dirKind \in {"user", "cfg", "usernew"} => dirExists
 TempDirKeptWhileRunning == (~exited /\ ~shut) => dirExists
 NoFlip == [][launch # "p" => launch' = launch]_vars
 TypeOK == launch \in {"p", "ok", "err"}
